@@ -17,7 +17,7 @@ verus! {
 //@event f free
 //@event is_close free
 //@flag close
-//@on then is_close => close = true;
+//@on then is_close($..r) => close = true;
 //@on assign x0 => close = false;
     ensures
         // Ok only directly after the convergence predicate returned true
